@@ -157,7 +157,42 @@ def check_oracle_contract(run, base_log, logs, m, m2):
                  {"mol": mol_repr(m), "relabelled": mol_repr(m2)})
 
 
+def exhaustive_small(run, rng, check, max_exhaustive=4):
+    """every simple graph on up to `max_exhaustive` carbon atoms, three colourings (plain, one 13C, one 13C
+    and one radical), ALL n! renumberings; on 5 atoms every graph with 12 random renumberings"""
+    import itertools as it
+    for n in range(1, 6):
+        perms = list(it.permutations(range(n)))
+        for edges in G.small_graphs(n):
+            for colouring in range(3):
+                atoms = [G._atom("C", i) for i in range(n)]
+                if colouring >= 1:
+                    atoms[0]["mass"] = 13
+                if colouring == 2 and n >= 2:
+                    atoms[n - 1]["rad"] = 2
+                m = G.Mol(atoms, [(a, b, 1) for a, b in edges], f"exhaustive{n}")
+                use = perms if n <= max_exhaustive else rng.sample(perms, 12)
+                variants = []
+                for perm in use:
+                    at = [None] * n
+                    for old, new in enumerate(perm):
+                        at[new] = dict(m.atoms[old])
+                    variants.append((G.Mol(at, [(perm[a], perm[b], t) for a, b, t in m.bonds], m.family), list(perm)))
+                run.stats[f"exhaustive_n{n}"] += 1
+                check(m, variants)
+
+
 def work_C01(run, rng, budget):
+    if budget > 1:
+        def chk(m, variants):
+            s0, err = safe(tucan_of, mol_graph(m))
+            for m2, perm in variants:
+                s2, err2 = safe(tucan_of, mol_graph(m2))
+                run.case(("C01x", mol_repr(m), perm), m.n() >= 2)
+                if s2 != s0:
+                    run.fail("string-differs-under-relabelling", f"{s0!r} vs {s2!r}",
+                             {"mol": mol_repr(m), "relabelled": mol_repr(m2), "perm": perm, "strings": [s0, s2]})
+        exhaustive_small(run, rng, chk)
     nmol = 120 * budget
     for m in molecules(run, rng, nmol):
         g = any_listing(mol_graph(m), rng)
@@ -226,6 +261,16 @@ def canon_maps(c: nx.Graph):
 
 
 def work_C04(run, rng, budget):
+    if budget > 1:
+        def chk(m, variants):
+            c0, err = safe(canonicalize_molecule, mol_graph(m))
+            for m2, perm in variants:
+                c2, err2 = safe(canonicalize_molecule, mol_graph(m2))
+                run.case(("C04x", mol_repr(m), perm), m.n() >= 2)
+                if c0 is None or c2 is None or canon_maps(c0) != canon_maps(c2):
+                    run.fail("canonical-graph-differs-under-relabelling", "exhaustive small graphs",
+                             {"mol": mol_repr(m), "relabelled": mol_repr(m2), "perm": perm})
+        exhaustive_small(run, rng, chk)
     for m in molecules(run, rng, 120 * budget):
         g = any_listing(mol_graph(m), rng)
         c, _, info0 = queue_pipeline_ops(run, g, want=("canon",))
